@@ -26,7 +26,7 @@ def main(tier, args):
     def fam(exe, tag, name, nparts, maxseg=0):
         for p in range(nparts):
             jobs.append(("%s:%s:%d" % (tag, name, p), [exe, name, str(p), str(nparts), lvl, str(maxseg)]))
-    depth = 9 if thorough else 7
+    depth = 12 if thorough else 7     # thorough reaches the BFS fixpoint (depth 8-10) for every configuration
     cfgs = [("raw", "epoll", 2), ("header", "epoll", 2), ("packet", "epoll", 2), ("raw", "select", 2),
             ("raw", "epoll", 1), ("raw", "epoll", 3), ("raw", "epoll", 0)]
     if thorough:
